@@ -473,6 +473,7 @@ struct pmis {
         std::vector<ptrdiff_t> recv_pts;
 
         std::vector<MPI_Request> send_cnt_req(Sp.recv.nbr.size());
+        std::vector<int>         send_cnt(Sp.recv.nbr.size());
         std::vector<MPI_Request> send_pts_req(Sp.recv.nbr.size());
 
         ptrdiff_t naggr = 0;
@@ -584,8 +585,8 @@ struct pmis {
             }
 
             for(size_t i = 0; i < Sp.recv.nbr.size(); ++i) {
-                int npts = send_pts[i].size();
-                MPI_Isend(&npts, 1, MPI_INT, Sp.recv.nbr[i], tag_exc_cnt, comm, &send_cnt_req[i]);
+                int npts = send_cnt[i] = send_pts[i].size();
+                MPI_Isend(&send_cnt[i], 1, MPI_INT, Sp.recv.nbr[i], tag_exc_cnt, comm, &send_cnt_req[i]);
 
                 if (!npts) continue;
                 MPI_Isend(&send_pts[i][0], npts, datatype<ptrdiff_t>(), Sp.recv.nbr[i], tag_exc_pts, comm, &send_pts_req[i]);
@@ -671,8 +672,8 @@ struct pmis {
             }
 
             for(size_t i = 0; i < Sp.recv.nbr.size(); ++i) {
-                int npts = send_pts[i].size();
-                MPI_Isend(&npts, 1, MPI_INT, Sp.recv.nbr[i], tag_exc_cnt, comm, &send_cnt_req[i]);
+                int npts = send_cnt[i] = send_pts[i].size();
+                MPI_Isend(&send_cnt[i], 1, MPI_INT, Sp.recv.nbr[i], tag_exc_cnt, comm, &send_cnt_req[i]);
 
                 if (!npts) continue;
                 MPI_Isend(&send_pts[i][0], npts, datatype<ptrdiff_t>(), Sp.recv.nbr[i], tag_exc_pts, comm, &send_pts_req[i]);
